@@ -180,6 +180,7 @@ func lpCheckQueues() string {
 				if _, _, err := spec.ReadPacket(enc.NewBufferReader(append([]byte{}, p.Raw...))); err != nil {
 					return "dispatched packet does not decode: " + err.Error()
 				}
+				sweepPacket(p.L3) // the forwarder calls accessors on what it is handed (a panic here is caught by lpApply's caller)
 			}
 		}
 	}
